@@ -881,7 +881,7 @@ titdnApply(Stab stab, AbSyn absyn, TForm type)
 	/* And now the implicit part */
 	if (abImplicit(absyn) != NULL) {
 		AbSyn implicitApply = abImplicit(absyn);
-		TPoss implicitOpTypes = abTPoss(implicitApply);
+		TPoss implicitOpTypes = abReferTPoss(implicitApply);
 		isImplicit = true;
 		for (tpossITER(it, implicitOpTypes); tpossMORE(it); tpossSTEP(it)) {
 			TForm	opType = tpossELT(it);
